@@ -101,6 +101,15 @@ def check_c15(tier, seed):
                          "observed": cls, "expected": "previous content or complete new content with mode 0644",
                          "reproduce": "build ./cmd/kessoku with -tags verif, lay down prior state '%s' (vlib/fsrun.prior_states), run `kessoku llm-setup claude-code` with %s" % (pn, envx)})
             tmps = F.temp_files(snap)
+            if kind == "fault":
+                # whatever its name and wherever it lies: after a reported failure nothing but the tree's own files (and
+                # what was there before) may exist below the working directory
+                allowed = set(rel_of(f) for f in files)
+                stray = sorted(k2 for k2, v2 in snap.items() if v2[0] != 'd' and k2 not in allowed and ".link-targets" not in k2 and k2 not in tmps)
+                if stray:
+                    R.violation("fault at %s over prior '%s': files left behind: %s" % (point_desc, pn, stray[:4]),
+                                {"kind": "input", "failing_input": {"agent": "claude-code", "prior": pn, "env": envx}, "observed": stray,
+                                 "expected": "no file other than the skill tree's own files after a reported failure"})
             if kind == "fault" and tmps:
                 R.violation("fault at %s over prior '%s': temporary file left behind: %s" % (point_desc, pn, tmps),
                             {"kind": "input", "failing_input": {"agent": "claude-code", "prior": pn, "env": envx}, "observed": tmps,
